@@ -160,7 +160,7 @@ fn cfg_from(args: &Args, profile_default: &str) -> RunCfg {
         seed: args.u64("seed").unwrap_or_else(seed_from_env),
         runs: args.u64("runs").unwrap_or(100_000),
         workers: args.u64("workers").map(|x| x as usize).unwrap_or_else(workers_default),
-        values_runs: args.u64("values-runs").unwrap_or(1_000_000),
+        values_runs: args.u64("values-runs").unwrap_or(250_000),
         dump_digests: args.get("dump-digests").map(PathBuf::from),
         max_reported: 6,
     }
